@@ -432,6 +432,28 @@ func replayMain(a []string) int {
 		fmt.Fprintln(os.Stderr, "bad replay file:", err)
 		return 2
 	}
+	if rp.Verdict != nil && rp.Verdict.Kind == "race" && !sim.RaceBuild {
+		// race verdicts replay in the -race build of the engine
+		raceBin := filepath.Join(verifDir, "bin", "icesim-race")
+		logp := filepath.Join(verifDir, "bin", fmt.Sprintf("replay-race-%d", os.Getpid()))
+		cmd := exec.Command(raceBin, "replay", a[0])
+		cmd.Env = append(os.Environ(), "GORACE=halt_on_error=0 log_path="+logp)
+		cmd.Stdout, cmd.Stderr = os.Stdout, os.Stderr
+		err := cmd.Run()
+		if m, _ := filepath.Glob(logp + ".*"); m != nil {
+			for _, f := range m {
+				os.Remove(f)
+			}
+		}
+		if err != nil {
+			if ee, ok := err.(*exec.ExitError); ok {
+				return ee.ExitCode()
+			}
+			fmt.Fprintln(os.Stderr, err)
+			return 2
+		}
+		return 0
+	}
 	env := &sim.Env{Prop: rp.Check, Tier: "replay"}
 	res, herr := sim.Execute(rp.Case, env)
 	if herr != nil {
